@@ -1,11 +1,13 @@
 package main
 
 import (
+	"context"
 	"encoding/json"
 	"flag"
 	"fmt"
 	"os"
 	"path/filepath"
+	"regexp"
 	"sort"
 	"strconv"
 	"strings"
@@ -256,6 +258,51 @@ func runCheck(repo, prop, tier string, seed int, opt solveOpts, start time.Time)
 		}
 		fev = append(fev, fe)
 	}
+	// lemmas over the contracts (pure SMT files under /verif/lemmas/<prop>_*.smt2 with an `expect:` header)
+	lemmaEv := []map[string]any{}
+	lfiles, _ := filepath.Glob(filepath.Join(verifRoot(), "lemmas", prop+"_*.smt2"))
+	sort.Strings(lfiles)
+	for _, lf := range lfiles {
+		src, err := os.ReadFile(lf)
+		if err != nil {
+			continue
+		}
+		expect := "unsat"
+		if m := regexp.MustCompile(`expect:\s*(sat|unsat)`).FindSubmatch(src); m != nil {
+			expect = string(m[1])
+		}
+		script := string(src)
+		script = strings.Replace(script, "(check-sat)", "", 1)
+		script = strings.Replace(script, "(set-logic ALL)", "", 1)
+		name := strings.TrimSuffix(filepath.Base(lf), ".smt2")
+		results := map[string]string{}
+		ok := true
+		answered := 0
+		for _, sv := range []SolverCfg{solvers[0], solvers[1]} {
+			r := runSolver(context.Background(), sv, script, 20000, true, false)
+			results[sv.Name] = r.res
+			if r.res == "sat" || r.res == "unsat" {
+				answered++
+				if r.res != expect {
+					ok = false
+				}
+			}
+		}
+		if answered == 0 {
+			ok = false
+		}
+		total++
+		lemmaEv = append(lemmaEv, map[string]any{"lemma": name, "expect": expect, "results": results, "ok": ok})
+		if ok {
+			discharged++
+			byBackend["lemma"]++
+		} else {
+			violations++
+			rp := writeReplayNote(prop, "lemma/"+name, "lemma over the contracts: expected "+expect, fmt.Sprint(results))
+			viol = append(viol, fmt.Sprintf("VIOLATION property=%s replay=%s no-failing-input-found", prop, rp))
+			fmt.Printf("FAILED-OBLIGATION: lemma/%s expected %s got %v\n", name, expect, results)
+		}
+	}
 	// one KNOWN-FINDING line per finding id
 	seenK := map[string]bool{}
 	for _, l := range knownLines {
@@ -292,6 +339,7 @@ func runCheck(repo, prop, tier string, seed int, opt solveOpts, start time.Time)
 		"known_findings":           known,
 		"not_decided":              propertyNotDecided(prop),
 		"engine_errors":            engineErrs,
+		"lemmas":                   lemmaEv,
 		"load_s":                   round2(loadS),
 	}
 	writeEvidence(evPath, prop, tier, seed, samples, tb, total, discharged, violations, extra, time.Since(start).Seconds(), assumptions, violations)
